@@ -428,7 +428,9 @@ pub fn random_json(rng: &mut Rng, depth: u32) -> Tree {
             let mut ms: Vec<(String, Tree)> = vec![];
             for _ in 0..rng.below(4) {
                 let k = rng.pick(&["a", "b", "type", "1", "true", "NaN", "", "zz", "A", "é"]).to_string();
-                if !ms.iter().any(|m| m.0 == k) {
+                // now and then a key occurs twice: the later member is the one that counts, for `Any` as for every
+                // other reader
+                if !ms.iter().any(|m| m.0 == k) || rng.chance(1, 6) {
                     ms.push((k, random_json(rng, depth - 1)));
                 }
             }
@@ -442,6 +444,26 @@ fn has_object(t: &Tree) -> bool {
         Tree::Obj(_) => true,
         Tree::Arr(xs) => xs.iter().any(has_object),
         _ => false,
+    }
+}
+
+/// the document with every repeated key resolved as readers resolve it: the last member of that name stays (in the
+/// place of the first)
+fn last_wins(t: &Tree) -> Tree {
+    match t {
+        Tree::Arr(xs) => Tree::Arr(xs.iter().map(last_wins).collect()),
+        Tree::Obj(ms) => {
+            let mut out: Vec<(String, Tree)> = vec![];
+            for (k, v) in ms {
+                let v = last_wins(v);
+                match out.iter_mut().find(|m| &m.0 == k) {
+                    Some(m) => m.1 = v,
+                    None => out.push((k.clone(), v)),
+                }
+            }
+            Tree::Obj(out)
+        }
+        other => other.clone(),
     }
 }
 
@@ -469,7 +491,7 @@ fn json_case(cs: &mut Cases, doc: &Tree) {
             match back {
                 Ok(Ok(b)) => {
                     let t = serde_json::from_slice::<Tree>(&b).unwrap_or(Tree::Null);
-                    if sort_tree(&t, None) != sort_tree(doc, None) {
+                    if sort_tree(&t, None) != sort_tree(&last_wins(doc), None) {
                         cs.fail_last("any:json-any-json", format!("{} re-serializes as {}", String::from_utf8_lossy(&bytes), String::from_utf8_lossy(&b)));
                     } else if !has_object(doc) && b != bytes {
                         // without objects there is no member order to allow for: the text itself must come back (every
